@@ -66,7 +66,16 @@ class _World(object):
         self.nitem = 0
         self.probes = {}
         self.results = []
+        self.flaky = set()
+        self.flaky_calls = 0
         self._make_fns()
+
+    def flaky_provider(self):
+        from ..prog import SimBaseError
+        self.flaky_calls += 1
+        if self.flaky_calls == 1:
+            raise SimBaseError("abort")
+        return "slow-value"
 
     def probe(self, k):
         self.probes[k] = self.probes.get(k, 0) + 1
@@ -96,6 +105,16 @@ class _World(object):
                 W.reenter_budget[key] -= 1
                 sub = W.call("body", [fnid, inst, a, b, "pos"])
                 W.probe("reentrant_same_key_call")
+            if key in W.flaky:
+                # (see abort_first) a slow lazily computed value the body needs; its first
+                # evaluation is interrupted
+                W.running.pop()
+                W.running_tasks.pop()
+                try:
+                    yield A.Future(W.flaky_provider)
+                finally:
+                    W.running.append(key)
+                    W.running_tasks.append(t)
             nblocks = (a + b) % 3
             probe_ctx = ProbeCtx(W, [fnid, inst if inst is not None else 0, a, b], key) if (W.case.get("probe_ctx") and a == 2) else None
             if probe_ctx is not None:
@@ -427,13 +446,13 @@ class C12(object):
             from ..prog import SimBaseError
             cs0 = case["abort_first"]
 
-            def provider():
-                raise SimBaseError("abort")
+            fn0, inst0 = W._callable(cs0[0] % 6, cs0[1])
+            W.flaky.add((cs0[0] % 6, inst0, cs0[2], cs0[3]))
 
             @A.asynq()
             def aborted():
                 t = W.call("aborted", cs0)
-                return (yield [t, A.Future(provider)])
+                return (yield t)
             try:
                 aborted()
                 out.append(("unexpected", "the aborted computation did not raise"))
